@@ -614,6 +614,14 @@ func (x *Exec) trCall(e *SExpr, env *TrEnv) *Term {
 			specErr(e, "elems needs a slice")
 		}
 		return mk("elems_"+mangle(v.Sort), arraySort(x.u.sliceElem(v.Sort), SBool), v)
+	case "sortedBy":
+		// sortedBy(f, s): what slices.IsSortedFunc(s, f) returns / slices.SortFunc establishes (engine symbol)
+		f := x.trExpr(e.Args[0], env)
+		v := x.trExpr(e.Args[1], env)
+		if !isSliceSort(v.Sort) {
+			specErr(e, "sortedBy needs a slice")
+		}
+		return mk("isSortedBy_"+mangle(v.Sort), SBool, f, v)
 	case "allocated":
 		return Select(x.getSt(env.st, "alloc", arraySort(SRef, SBool)), x.trExpr(e.Args[0], env))
 	case "fresh":
